@@ -558,6 +558,49 @@ def judge_probe(cfg, r):
     return []
 
 
+def vector_signal_worker(cfg):
+    """a VECTOR-valued grid='bspline' parameter (n rows, coefficient matrix n x (N+order), incl. the square case n = N+order with a
+    non-symmetric matrix): row i of every sample is the spline of row i of the coefficients — before transcription, and after
+    set_value on the transcribed problem"""
+    from ..common import setup_rockit_path
+    rockit = setup_rockit_path()
+    import io, contextlib
+    import numpy as np
+    import casadi as ca
+    from scipy.interpolate import BSpline
+    out = {}
+    try:
+        with contextlib.redirect_stdout(io.StringIO()), contextlib.redirect_stderr(io.StringIO()):
+            N, d, n = cfg["N"], cfg["order"], cfg["n"]
+            t0, T = 0.5, 2.0
+            ocp = rockit.Ocp(t0=t0, T=T)
+            x = ocp.state(); u = ocp.control()
+            p = ocp.parameter(n, grid="bspline", order=d)
+            ocp.set_der(x, u + 0.1 * ca.sum1(p))
+            ocp.add_objective(ocp.integral(u ** 2) + ocp.at_tf(x) ** 2)
+            grid = rockit.GeometricGrid(2) if cfg["grid"] == "geometric" else rockit.UniformGrid()
+            ocp.method(rockit.MultipleShooting(N=N, M=2, intg="rk", grid=grid) if cfg["method"] == "MS"
+                       else rockit.DirectCollocation(N=N, M=2, degree=2, grid=grid))
+            ocp.solver("ipopt", {"ipopt.print_level": 0, "print_time": False, "ipopt.max_iter": 0})
+            devs = []
+            for rep in range(2):
+                C = np.array([[((3 * i + 5 * j + 7 * rep) % 11) / 4.0 - 1.0 for j in range(N + d)] for i in range(n)])
+                ocp.set_value(p, C)
+                ts, ps = ocp.sample(p, grid="integrator", refine=2)
+                opti = ocp._method.opti
+                tv = np.array(opti.debug.value(ts, opti.initial())).reshape(-1)
+                pv = np.array(opti.debug.value(ps, opti.initial())).reshape(n, -1)
+                tc = np.array(opti.debug.value(ocp.sample(ocp.t, grid="control")[1], opti.initial())).reshape(-1)
+                kn = np.concatenate([[tc[0]] * d, tc, [tc[-1]] * d])
+                for i in range(n):
+                    ref = BSpline(kn, C[i], d, extrapolate=True)(np.clip(tv, tc[0], tc[-1]))
+                    devs.append(float(np.max(np.abs(pv[i] - ref))))
+            out["devs"] = devs
+    except Exception as e_:
+        out["error"] = "%s: %s" % (type(e_).__name__, str(e_)[:300])
+    return out
+
+
 def run(tier="quick", seed=0, jobs=16):
     rng = random.Random(seed * 1000003 + 1717)
     n = 160 if tier == "quick" else 2000
@@ -597,7 +640,17 @@ def run(tier="quick", seed=0, jobs=16):
                         "finding_key": "F19-bspline-parameter-misplaced-in-system-function" if cfg["with_var"] else None})
         else:
             nontriv.add(sha([cfg, "probe"]))
-    return {"evaluations": len(ks) + len(sig) + len(probes), "distinct_nontrivial": len(nontriv),
+    vcf = [{"method": m, "grid": g, "N": N_, "order": d_, "n": n_} for m in ("MS", "DC") for g in ("uniform", "geometric")
+           for N_, d_, n_ in ((2, 1, 3), (2, 2, 4), (3, 1, 2), (2, 1, 2))]
+    with mp.get_context("fork").Pool(min(jobs, len(vcf))) as pool:
+        rv = pool.map(vector_signal_worker, vcf, chunksize=1)
+    for cfg, r in zip(vcf, rv):
+        dist["vector-signal/%s" % ("square" if cfg["n"] == cfg["N"] + cfg["order"] else "rect")] = dist.get("vector-signal/%s" % ("square" if cfg["n"] == cfg["N"] + cfg["order"] else "rect"), 0) + 1
+        if "error" in r or any(not (v < 1e-9) for v in r.get("devs", [1.0])):
+            dis.append({"property": "C17", "what": [{"what": "vector-valued grid='bspline' parameter: a row of the sampled signal is not the spline of that row of the coefficients "
+                                                             "(before transcription / after set_value on the transcribed problem)", "max deviations per row": r.get("devs"), "error": r.get("error")}],
+                        "case": dict(cfg, _vector_signal=True), "points": [], "finding_key": None})
+    return {"evaluations": len(ks) + len(sig) + len(probes) + len(vcf), "distinct_nontrivial": len(nontriv),
             "rule": "kernels: degree 0..4 x N 1..8 x uniform and non-uniform dyadic knots x refinement 1..5 x include_edges x "
                     "random coefficients: eval_on_knots basis matrices, bspline_derivative, get_greville_points against the "
                     "model; spline values and derivatives against scipy.  Signals: grid='bspline' parameter of order d under "
